@@ -3,7 +3,7 @@
    Print Assumptions.  Model: Cluster/Flat.v (generic) and Cluster/FlatQ.v
    (exact rationals, the instance run against the implementation). *)
 From Coq Require Import QArith List Bool Arith Relations.
-From LV Require Import Cluster.Flat Cluster.FlatProofs Cluster.FlatLinkage Cluster.FlatTextbook Cluster.FlatQ Cluster.FlatQProofs.
+From LV Require Import Cluster.Flat Cluster.FlatProofs Cluster.FlatLinkage Cluster.FlatTextbook Cluster.FlatUnique Cluster.FlatQ Cluster.FlatQProofs.
 Import ListNotations.
 Local Open Scope nat_scope.
 
@@ -79,13 +79,30 @@ Print Assumptions C05_complete_diameter.
    and matrix the run is a maximal sequence of steps that merge a pair of clusters of MINIMAL linkage
    while that minimum is <= threshold ([tb_run], Cluster/FlatTextbook.v).  The only freedom the
    relational specification leaves is which of several minimal pairs is merged (and in which
-   orientation); on a matrix without ties there is no second minimal pair.  (That two runs of the
-   specification on a tie-free matrix end in the same partition - orientation of a merge does not
-   matter - is not proved: partial.) *)
-Theorem C05_flat_is_textbook_partial :
+   orientation). *)
+Theorem C05_flat_is_textbook :
   forall (V : Type) (leb : V -> V -> bool) (link : list V -> V) (d : nat -> nat -> V),
     (forall a b, leb a b = true \/ leb b a = true) ->
     (forall a b c, leb a b = true -> leb b c = true -> leb a c = true) ->
     forall (n : nat) (thr : V), tb_run V leb link d thr (init n) (flat leb link d n thr).
 Proof. exact flat_is_textbook. Qed.
-Print Assumptions C05_flat_is_textbook_partial.
+Print Assumptions C05_flat_is_textbook.
+
+(* ... and on a matrix WITHOUT TIES ([no_ties]: in every partition state two different unordered
+   pairs of blocks never have equal linkage) that specification has exactly one outcome, so the
+   result COINCIDES with the textbook procedure: every run of the specification from the singletons
+   ends in the partition the implementation returns (same blocks; cluster names and member order
+   are immaterial).  Hypotheses: symmetric matrix; a linkage that does not depend on the order of
+   the cross distances (min, max and sum/len are such functions on any carrier in which equal
+   values are identical, e.g. floats). *)
+Theorem C05_coincides_with_textbook_without_ties :
+  forall (V : Type) (leb : V -> V -> bool) (link : list V -> V) (d : nat -> nat -> V),
+    (forall a b, leb a b = true \/ leb b a = true) ->
+    (forall a b c, leb a b = true -> leb b c = true -> leb a c = true) ->
+    (forall l l', Permutation.Permutation l l' -> link l = link l') ->
+    (forall x y, d x y = d y x) ->
+    forall (n : nat) (thr : V), no_ties V leb link d ->
+    forall r, tb_run V leb link d thr (init n) r ->
+      forall x y, together r x y <-> together (flat leb link d n thr) x y.
+Proof. exact flat_coincides_with_textbook. Qed.
+Print Assumptions C05_coincides_with_textbook_without_ties.
